@@ -270,6 +270,16 @@ func narrowPrep(api *serix.API) {
 	must(api.RegisterTypeSettings([2]CFlag{}, lpTS(serix.LengthPrefixTypeAsByte)))
 }
 
+// CCuPRs: a custom type with pointer-receiver Encode / Decode held by value and through a pointer.
+type CCuPRs struct {
+	F CuPR           `serix:""`
+	P *CuPR          `serix:""`
+	O *CuPR          `serix:",optional"`
+	L []CuPR         `serix:",lenPrefix=uint8"`
+	A [2]CuPR        `serix:",lenPrefix=uint8"`
+	M map[uint8]CuPR `serix:",lenPrefix=uint8"`
+}
+
 // CCuNode: an interface whose registered alternatives are custom Serializable types (with a one-byte object code) next
 // to an ordinary struct: `API.encode` takes the Serializable branch already at the interface-kinded value.
 type CCuNode interface{}
@@ -341,6 +351,9 @@ var catalogue = []catEntry{
 	{name: "customs-ptr", top: &CCustoms{}, prep: customPrep},
 	{name: "top-custom-map", top: map[CuTab]uint32{}, ts: tsp(lpTS(serix.LengthPrefixTypeAsByte))},
 	{name: "top-custom-map2", top: map[CuTab]CuTab{}, ts: tsp(lpTS(serix.LengthPrefixTypeAsUint16))},
+	{name: "custom-ptr-recv", top: CCuPRs{}},
+	{name: "top-custom-ptr-recv", top: CuPR{}},
+	{name: "top-custom-ptr-recv-slice", top: []CuPR{}, ts: tsp(lpTS(serix.LengthPrefixTypeAsByte))},
 	{name: "iface-custom", top: CCuNodes{}, prep: customIfacePrep},
 	{name: "top-iface-custom", top: []CCuNode{}, ts: tsp(lpTS(serix.LengthPrefixTypeAsByte)), prep: customIfacePrep},
 	{name: "top-custom-self", top: CuSelf{}},
